@@ -89,6 +89,30 @@ def histories(tier, rnd):
     return hs
 
 
+def config_dir_histories(base):
+    """runs that differ in the directory their sqlfluff configuration comes from (LineageRunner(file_path=...)): sibling directories with
+    different templater contexts, given as directories and as files inside them"""
+    import os
+    ctx = {"staging": ("raw.orders", "staging.orders"), "marts": ("staging.orders", "marts.revenue"), "extra": ("marts.revenue", "rpt.daily")}
+    for name, (src, tgt) in ctx.items():
+        os.makedirs(os.path.join(base, "models", name), exist_ok=True)
+        with open(os.path.join(base, "models", name, ".sqlfluff"), "w") as fh:
+            fh.write(f"[sqlfluff]\ntemplater = jinja\n\n[sqlfluff:templater:jinja:context]\nsrc = {src}\ntgt = {tgt}\n")
+        open(os.path.join(base, "models", name, "q.sql"), "w").write("select 1")
+    sql = "insert into {{ tgt }} select a, b from {{ src }}"
+    spell = lambda n, as_file: os.path.join(base, "models", n, "q.sql") if as_file else os.path.join(base, "models", n)  # noqa: E731
+    hs = []
+    for a in ctx:
+        for b in ctx:
+            if a == b:
+                continue
+            for fa in (False, True):
+                for fb in (False, True):
+                    hs.append({"runs": [{"sql": sql, "dialect": "ansi", "file_path": spell(a, fa)}], "B": {"sql": sql, "dialect": "ansi", "file_path": spell(b, fb)},
+                               "sharing": "default", "metadata": None, "class": "config-directory"})
+    return hs
+
+
 def fresh_case(h):
     c = dict(h["B"])
     if h["sharing"] != "default":
@@ -103,6 +127,10 @@ def run(tier):
     run_ = evidence.Run(PID, tier, level="fault_enumeration", rule=RULE)
     rnd = common.rng("c12")
     hs = histories(tier, rnd)
+    import shutil
+    import tempfile
+    scratch = tempfile.mkdtemp(prefix="c12_")
+    hs += config_dir_histories(scratch)
     for k in ("session_events_observed", "registered_tables_checked", "B_comparisons", "lookup_faults_fired", "line_failpoints_fired", "thread_records_compared", "thread_yields_injected", "thread_balance_checks"):
         run_.need(k)
     with Pool() as pool:
@@ -231,6 +259,7 @@ def run(tier):
     run_.exhaustive = False
     run_.assumptions = ["the session tap sees every register/deregister/lookup", "B's fresh record is computed in a different worker process than the history",
                         "two runs never share one provider concurrently (excluded by the property)"]
+    shutil.rmtree(scratch, ignore_errors=True)
     return run_.finish()
 
 
